@@ -11,6 +11,7 @@ import (
 	"sort"
 
 	"github.com/Eyevinn/mp4ff/aac"
+	"github.com/Eyevinn/mp4ff/hevc"
 	"github.com/Eyevinn/mp4ff/internal/vsim/ref"
 	"github.com/Eyevinn/mp4ff/internal/vsim/sim"
 	"github.com/Eyevinn/mp4ff/internal/vsim/work"
@@ -310,6 +311,23 @@ func c06Build(r *sim.Run, t *sim.Tape, scheme string, first bool) (*mp4.InitSegm
 		}
 		init = fi.Init
 		pool = src.Samples
+		if stsd := init.Moov.Trak.Mdia.Minf.Stbl.Stsd; stsd.HvcX != nil && stsd.HvcX.HvcC != nil && t.Chance(300) {
+			// the parameter-set arrays of the configuration record in another (legal) order, e.g. PPS before SPS
+			arr := stsd.HvcX.HvcC.DecConfRec.NaluArrays
+			if n := len(arr); n > 1 {
+				k := 1 + t.Draw(n-1)
+				rot := append(append([]hevc.NaluArray(nil), arr[k:]...), arr[:k]...)
+				if t.Bool() {
+					for i, j := 0, len(rot)-1; i < j; i, j = i+1, j-1 {
+						rot[i], rot[j] = rot[j], rot[i]
+					}
+				}
+				stsd.HvcX.HvcC.DecConfRec.NaluArrays = rot
+				if first {
+					r.Probe("hvcC-arrays-reordered")
+				}
+			}
+		}
 		p.Codec, p.Media, p.TrackID = src.Codec, src.Media, src.TrackID
 		if first {
 			r.Probe("real-samples:" + src.Codec)
